@@ -411,7 +411,7 @@ Proof.
       apply (H3 k). unfold dirty_lookup. rewrite Hd. exact H.
   - discriminate.
   - discriminate.
-  - intros e. rewrite exps_insert. destruct (decide (e = next_e s)); [lia|]. intros He. apply HX in He. lia.
+  - intros e. unfold s2. rewrite is_exp_mk, exps_insert. destruct (decide (e = next_e s)); [lia|]. intros He. apply HX in He. lia.
   - intros d0 k e [= <-] Hk. assert (k <> key) by congruence. rewrite lookup_insert_ne by congruence.
     rewrite X by (eapply H2; left; eauto). auto.
   - discriminate.
@@ -1254,3 +1254,310 @@ Proof.
            ++ rewrite Hmu'. destruct (i_mu i) as [t'|]; [|eapply WF_sim; eauto].
               destruct (decide (t' = t)); [congruence|]. intros fh. apply WFL_sim. exact Hsim.
 Qed.
+
+(* L5: inside the critical section an expunged entry changes only at Unexpunge_cas *)
+Lemma sf_cs_exp t i f ch i' o e :
+  frame_ok f -> in_cs f = true -> WFL (i_st i) f -> step_frame t i f ch = Some (Ok (i', o)) ->
+  is_exp (i_st i) e = true -> is_exp (i_st i') e = false -> f_pc f = Unexpunge_cas /\ f_e f = Some e.
+Proof.
+  intros [He Hst Hdel Hpost] Hcs [Hc Hw] H H1 H2. unfold step_frame in H. unfold in_cs in Hcs. unfold cs_class in Hcs, Hw.
+  rewrite is_exp_exps in H1, H2.
+  destruct (f_pc f) eqn:Hpc; try discriminate Hcs; cbn in He;
+    unfold expunge_done, tlos_done, bind in H; unfold after_miss, new_entry, dirty_insert, dirty_delete in H; cbn in H;
+    repeat case_match; simplify_eq; cbn in H2; try congruence.
+  all: try (rewrite exps_insert in H2; case_decide; [subst|congruence]).
+  all: try (apply wf_exp_bound in H1; [|eassumption]; lia).
+  all: try (split; reflexivity).
+  all: try (cbn in H2; discriminate).
+  all: try (rewrite <- is_exp_exps, is_exp_ent in H1; repeat case_match; congruence).
+  destruct Hw as [_ (e0 & Hfe & Hex)]. simplify_eq. rewrite is_exp_exps in Hex. congruence.
+Qed.
+
+(* ------------------------------------------------------------------ *)
+(* the invariant holds in every reachable configuration               *)
+(* ------------------------------------------------------------------ *)
+Lemma WF_core_empty : WF_core empty_mstate.
+Proof.
+  constructor; cbn; try discriminate.
+  - intros k1 k2 e [H|H]; cbn in H; [rewrite lookup_empty in H|]; discriminate.
+  - intros k e [H|H]; cbn in H; [rewrite lookup_empty in H|]; discriminate.
+Qed.
+
+Lemma WF_empty : WF empty_mstate.
+Proof. split; [apply WF_core_empty|]. constructor; cbn; [discriminate|reflexivity]. Qed.
+
+Lemma init_top n progs t f : top_frame (init_config n progs) t = Some f -> exists c, f = new_frame c.
+Proof.
+  unfold top_frame, init_config. cbn. rewrite nth_error_map.
+  destruct (nth_error progs t) as [p|]; [|discriminate]. cbn. unfold next_call. cbn.
+  destruct p as [|c p]; cbn; [discriminate|]. intros [= <-]. eauto.
+Qed.
+
+Lemma in_cs_new c : in_cs (new_frame c) = false.
+Proof. destruct c; reflexivity. Qed.
+
+Theorem Inv_init n progs : Inv (init_config n progs).
+Proof.
+  constructor.
+  - intros t f H. apply init_top in H as [c ->]. apply frame_ok_new.
+  - intros j i H. cbn in H. apply nth_error_In, repeat_spec in H. subst i. split.
+    + intros t. cbn. split; [discriminate|]. intros (f & H1 & _ & H3). apply init_top in H1 as [c ->].
+      rewrite in_cs_new in H3. discriminate.
+    + cbn. apply WF_empty.
+Qed.
+
+Lemma Inv_run c sched : Inv c -> Inv (run_schedule c sched).
+Proof.
+  revert c. induction sched as [|[t ch] sched IH]; intros c HI; cbn; [exact HI|].
+  apply IH. destruct (step c t ch) as [c'|] eqn:E; cbn; [eapply Inv_step; eauto|exact HI].
+Qed.
+
+Theorem Inv_reachable n progs sched : Inv (run_schedule (init_config n progs) sched).
+Proof. apply Inv_run, Inv_init. Qed.
+
+(* ------------------------------------------------------------------ *)
+(* 1. lock discipline / mutual exclusion of m.mu                      *)
+(* ------------------------------------------------------------------ *)
+(* mu is held by t iff t is between the step after its *_lock and its *_unlock on that instance *)
+Theorem mu_held_iff_in_cs n progs sched j i t :
+  let c := run_schedule (init_config n progs) sched in
+  nth_error (c_insts c) j = Some i -> (i_mu i = Some t <-> holder c j t).
+Proof. intros c H. apply (inv_insts c (Inv_reachable n progs sched) j i H). Qed.
+
+(* at most one thread is inside the critical section of an instance *)
+Theorem mutual_exclusion n progs sched j i t1 t2 :
+  let c := run_schedule (init_config n progs) sched in
+  nth_error (c_insts c) j = Some i -> holder c j t1 -> holder c j t2 -> t1 = t2.
+Proof.
+  intros c H H1 H2. destruct (inv_insts c (Inv_reachable n progs sched) j i H) as [Hm _].
+  apply Hm in H1, H2. congruence.
+Qed.
+
+(* what a step of thread t does to an instance whose lock t does not hold *)
+Lemma step_rely c t ch c' j i i' :
+  Inv c -> step c t ch = Some c' -> nth_error (c_insts c) j = Some i -> nth_error (c_insts c') j = Some i' ->
+  i_mu i <> Some t ->
+  rely (i_st i) (i_st i') /\ (i_mu i' = i_mu i \/ (i_mu i = None /\ i_mu i' = Some t)).
+Proof.
+  intros HI H Hi Hi' Hmu. rewrite step_unfold in H.
+  destruct (c_panicked c); [discriminate|].
+  destruct (nth_error (c_threads c) t) as [th|] eqn:Hth; [|discriminate].
+  destruct (t_stack th) as [|f rest] eqn:Hst; [discriminate|].
+  assert (Tt : top_frame c t = Some f) by (unfold top_frame; rewrite Hth, Hst; reflexivity).
+  assert (Hok : frame_ok f) by (eapply inv_frames; eauto).
+  assert (Same : c_insts c' = c_insts c -> rely (i_st i) (i_st i') /\ (i_mu i' = i_mu i \/ (i_mu i = None /\ i_mu i' = Some t))).
+  { intros E. rewrite E in Hi'. assert (i' = i) by congruence. subst. split; [apply rely_refl|auto]. }
+  destruct (is_post_label (f_pc f)) eqn:Hpl.
+  - destruct (step_post (c_um c) f) as [[[um' o]|k]|] eqn:Hsp; [| |discriminate];
+      apply fin_shape in H as (E & _); auto.
+  - destruct (nth_error (c_insts c) (call_inst (f_call f))) as [i0|] eqn:Hi0; [|discriminate].
+    destruct (step_frame t i0 f ch) as [[[i0' o]|k]|] eqn:Hsf; [| |discriminate];
+      apply fin_shape in H as (E & _); auto.
+    destruct (decide (j = call_inst (f_call f))) as [->|Nj].
+    + assert (i0 = i) by congruence. subst i0.
+      rewrite E, nth_error_set_nth_list_eq in Hi' by (eapply nth_error_lt; eauto). injection Hi' as <-.
+      assert (Hcs : in_cs f = false).
+      { destruct (in_cs f) eqn:Hcs; [|reflexivity]. exfalso. apply Hmu.
+        apply (inv_insts c HI _ _ Hi). exists f. auto. }
+      destruct (sf_free _ _ _ _ _ _ Hok Hcs Hsf) as [(Hmu0 & -> & _)|(Hmu' & Hr & _)].
+      * split; [apply rely_refl|]. right. auto.
+      * split; [exact Hr|]. left. exact Hmu'.
+    + rewrite E, nth_error_set_nth_list_ne in Hi' by (eauto using nth_error_lt).
+      assert (i' = i) by congruence. subst. split; [apply rely_refl|auto].
+Qed.
+
+(* every step that changes dirty, misses, read.m or read.amended of an instance
+   (or the expunged status of an entry, or allocates an entry) is taken by the
+   thread that holds its mu; the other threads can only acquire the free lock *)
+Theorem lock_discipline n progs sched t ch c' j i i' :
+  let c := run_schedule (init_config n progs) sched in
+  step c t ch = Some c' -> nth_error (c_insts c) j = Some i -> nth_error (c_insts c') j = Some i' ->
+  i_mu i <> Some t ->
+  dirty (i_st i') = dirty (i_st i) /\ misses (i_st i') = misses (i_st i) /\
+  read_m (i_st i') = read_m (i_st i) /\ amended (i_st i') = amended (i_st i) /\
+  next_e (i_st i') = next_e (i_st i) /\
+  (forall e, get_ent (i_st i') e = PExpunged <-> get_ent (i_st i) e = PExpunged) /\
+  (i_mu i' = i_mu i \/ (i_mu i = None /\ i_mu i' = Some t)).
+Proof.
+  intros c H Hi Hi' Hmu.
+  destruct (step_rely c t ch c' j i i' (Inv_reachable n progs sched) H Hi Hi' Hmu) as [[[Hn Hr Ha Hd He] Hm] Hx].
+  repeat split; auto.
+  - intros E. specialize (He e). unfold is_exp in He. rewrite E in He. destruct (get_ent (i_st i) e); congruence.
+  - intros E. specialize (He e). unfold is_exp in He. rewrite E in He. destruct (get_ent (i_st i') e); congruence.
+Qed.
+
+(* ------------------------------------------------------------------ *)
+(* 3. the structural invariant                                        *)
+(* ------------------------------------------------------------------ *)
+Theorem structure_lock_free n progs sched j i :
+  let c := run_schedule (init_config n progs) sched in
+  nth_error (c_insts c) j = Some i -> i_mu i = None -> WF (i_st i).
+Proof.
+  intros c H Hmu. destruct (inv_insts c (Inv_reachable n progs sched) j i H) as [_ Hw]. rewrite Hmu in Hw. exact Hw.
+Qed.
+
+Theorem structure_locked n progs sched j i t :
+  let c := run_schedule (init_config n progs) sched in
+  nth_error (c_insts c) j = Some i -> i_mu i = Some t ->
+  exists f, top_frame c t = Some f /\ call_inst (f_call f) = j /\ in_cs f = true /\ WFL (i_st i) f.
+Proof.
+  intros c H Hmu. destruct (inv_insts c (Inv_reachable n progs sched) j i H) as [Hm Hw]. rewrite Hmu in Hw.
+  apply Hm in Hmu as (f & H1 & H2 & H3). exists f. auto.
+Qed.
+
+Theorem structure_always n progs sched j i :
+  let c := run_schedule (init_config n progs) sched in
+  nth_error (c_insts c) j = Some i -> WF_core (i_st i).
+Proof.
+  intros c H. destruct (i_mu i) as [t|] eqn:Hmu.
+  - destruct (structure_locked n progs sched j i t H Hmu) as (f & _ & _ & _ & [Hc _]). exact Hc.
+  - apply (structure_lock_free n progs sched j i H Hmu).
+Qed.
+
+(* expunged is final except for the lock holder's Unexpunge_cas *)
+Lemma step_exp_final c t ch c' j i i' e :
+  Inv c -> step c t ch = Some c' -> nth_error (c_insts c) j = Some i -> nth_error (c_insts c') j = Some i' ->
+  is_exp (i_st i) e = true -> is_exp (i_st i') e = false ->
+  i_mu i = Some t /\ exists f, top_frame c t = Some f /\ call_inst (f_call f) = j /\ f_pc f = Unexpunge_cas /\ f_e f = Some e.
+Proof.
+  intros HI H Hi Hi' H1 H2.
+  destruct (decide (i_mu i = Some t)) as [Hmu|Hmu].
+  2:{ destruct (step_rely c t ch c' j i i' HI H Hi Hi' Hmu) as [[[_ _ _ _ He] _] _]. rewrite He in H2. congruence. }
+  split; [exact Hmu|].
+  destruct (inv_insts c HI _ _ Hi) as [Hm Hw]. rewrite Hmu in Hw.
+  apply Hm in Hmu as (f & Tt & Hj & Hcs). specialize (Hw f Tt).
+  exists f. split; [exact Tt|]. split; [exact Hj|].
+  assert (Hok : frame_ok f) by (eapply inv_frames; eauto).
+  rewrite step_unfold in H. unfold top_frame in Tt.
+  destruct (c_panicked c); [discriminate|].
+  destruct (nth_error (c_threads c) t) as [th|] eqn:Hth; [|discriminate].
+  destruct (t_stack th) as [|f0 rest] eqn:Hst; [discriminate|]. cbn in Tt. injection Tt as ->.
+  destruct (is_post_label (f_pc f)) eqn:Hpl.
+  { apply in_cs_post_label in Hpl. congruence. }
+  rewrite Hj, Hi in H.
+  destruct (step_frame t i f ch) as [[[i0' o]|k]|] eqn:Hsf; [| |discriminate];
+    apply fin_shape in H as (E & _).
+  - rewrite E, nth_error_set_nth_list_eq in Hi' by (eapply nth_error_lt; eauto). injection Hi' as <-.
+    eapply sf_cs_exp; eauto.
+  - rewrite E in Hi'. assert (i' = i) by congruence. subst. congruence.
+Qed.
+
+Theorem expunged_final n progs sched t ch c' j i i' e :
+  let c := run_schedule (init_config n progs) sched in
+  step c t ch = Some c' -> nth_error (c_insts c) j = Some i -> nth_error (c_insts c') j = Some i' ->
+  get_ent (i_st i) e = PExpunged -> get_ent (i_st i') e <> PExpunged ->
+  i_mu i = Some t /\ exists f, top_frame c t = Some f /\ call_inst (f_call f) = j /\ f_pc f = Unexpunge_cas /\ f_e f = Some e.
+Proof.
+  intros c H Hi Hi' H1 H2. eapply step_exp_final; eauto using Inv_reachable.
+  - unfold is_exp. rewrite H1. reflexivity.
+  - unfold is_exp. destruct (get_ent (i_st i') e); congruence.
+Qed.
+
+(* ------------------------------------------------------------------ *)
+(* 2. no panic                                                        *)
+(* ------------------------------------------------------------------ *)
+(* calls that do not go on to a keyed-mutex operation (those can panic by
+   design: unlock of an unlocked mutex) *)
+Definition nopost (c : call) : Prop := match c with CLoadOrStore _ _ _ p => p = PNone | _ => True end.
+Definition thread_nopost (th : thread) : Prop :=
+  Forall nopost (t_prog th) /\ Forall (fun f => nopost (f_call f)) (t_stack th).
+Definition calls_nopost (c : config) : Prop :=
+  forall t th, nth_error (c_threads c) t = Some th -> thread_nopost th.
+
+Lemma next_call_nopost prog res b : Forall nopost prog -> thread_nopost (next_call (Thread prog [] res b)).
+Proof.
+  intros H. unfold next_call. cbn. destruct prog as [|c prog]; cbn.
+  - split; constructor.
+  - inversion H; subst. split; [assumption|]. constructor; [assumption|constructor].
+Qed.
+
+Lemma do_return_nopost th r rest th' rs :
+  Forall nopost (t_prog th) -> Forall (fun f => nopost (f_call f)) rest -> do_return th r rest = (th', rs) ->
+  thread_nopost th'.
+Proof.
+  intros Hp Hr. unfold do_return. destruct rest as [|p rest'].
+  - intros [= <- <-]. apply next_call_nopost, Hp.
+  - match goal with |- context [range_next ?x false] => destruct (range_next_cases x false) as [[r' ->]| ->] end.
+    + intros [= <- <-]. apply next_call_nopost, Hp.
+    + intros [= <- <-]. split; [exact Hp|]. inversion Hr; subst. constructor; assumption.
+Qed.
+
+Lemma fin_nopost c t th f rest insts um ro c' :
+  thread_nopost th -> t_stack th = f :: rest ->
+  match ro with Ok (Continue f') | Ok (Callback f' _ _) => f_call f' = f_call f | _ => True end ->
+  fin c t th f rest insts um ro = Some c' ->
+  exists th', c_threads c' = set_nth_list t th' (c_threads c) /\ thread_nopost th'.
+Proof.
+  intros [Hp Hs] Hst Hcall H. rewrite Hst in Hs. inversion Hs as [|? ? Hf Hrest]; subst.
+  unfold fin in H. destruct ro as [[f'|r|f' k v]|k].
+  - simplify_eq. eexists. split; [reflexivity|]. split; [exact Hp|]. cbn. constructor; [congruence|assumption].
+  - destruct (do_return _ _ rest) as [th' rs] eqn:E. simplify_eq. eexists. split; [reflexivity|].
+    eapply do_return_nopost; [| |exact E]; assumption.
+  - destruct (cb_of (f_call f')) as [n|j|j] eqn:Ecb.
+    + match type of H with context [range_next ?x ?y] => destruct (range_next_cases x y) as [[r' Hr]| Hr]; rewrite Hr in H end.
+      * destruct (do_return _ _ rest) as [th' rs] eqn:E. simplify_eq. eexists. split; [reflexivity|].
+        eapply do_return_nopost; [| |exact E]; assumption.
+      * simplify_eq. eexists. split; [reflexivity|]. split; [exact Hp|]. cbn. constructor; [cbn; congruence|assumption].
+    + simplify_eq. eexists. split; [reflexivity|]. split; [exact Hp|]. cbn.
+      constructor; [reflexivity|]. constructor; [cbn; congruence|assumption].
+    + simplify_eq. eexists. split; [reflexivity|]. split; [exact Hp|]. cbn.
+      constructor; [exact I|]. constructor; [cbn; congruence|assumption].
+  - simplify_eq. eexists. split; [reflexivity|]. split; constructor.
+Qed.
+
+Lemma calls_nopost_set c c' t th' :
+  t < length (c_threads c) -> calls_nopost c -> c_threads c' = set_nth_list t th' (c_threads c) -> thread_nopost th' ->
+  calls_nopost c'.
+Proof.
+  intros Hl Hc E Hth' t' th0. rewrite E. destruct (decide (t' = t)) as [->|N].
+  - rewrite nth_error_set_nth_list_eq by exact Hl. congruence.
+  - rewrite nth_error_set_nth_list_ne by auto. apply Hc.
+Qed.
+
+Lemma step_nopost c t ch c' :
+  Inv c -> calls_nopost c -> step c t ch = Some c' -> calls_nopost c' /\ c_panicked c' = false.
+Proof.
+  intros HI HN H. rewrite step_unfold in H.
+  destruct (c_panicked c); [discriminate|].
+  destruct (nth_error (c_threads c) t) as [th|] eqn:Hth; [|discriminate].
+  destruct (t_stack th) as [|f rest] eqn:Hst; [discriminate|].
+  assert (Tt : top_frame c t = Some f) by (unfold top_frame; rewrite Hth, Hst; reflexivity).
+  assert (Hok : frame_ok f) by (eapply inv_frames; eauto).
+  assert (Hl : t < length (c_threads c)) by (eapply nth_error_lt; eauto).
+  pose proof (HN t th Hth) as Hnp.
+  assert (Hnf : nopost (f_call f)). { destruct Hnp as [_ Hs]. rewrite Hst in Hs. inversion Hs; assumption. }
+  destruct (is_post_label (f_pc f)) eqn:Hpl.
+  { exfalso. apply (fo_post _ Hok) in Hpl. destruct (f_call f); cbn in *; try contradiction. }
+  destruct (nth_error (c_insts c) (call_inst (f_call f))) as [i|] eqn:Hi; [|discriminate].
+  destruct (step_frame t i f ch) as [r|] eqn:Hsf; [|discriminate].
+  assert (exists i' o, r = Ok (i', o)) as (i' & o & ->).
+  { destruct (in_cs f) eqn:Hcs.
+    - destruct (inv_insts c HI _ _ Hi) as [Hm Hw].
+      assert (Hmu : i_mu i = Some t). { apply Hm. exists f. auto. }
+      rewrite Hmu in Hw. destruct (sf_cs t i f ch r Hok Hcs Hmu (Hw f Tt) Hsf) as (i' & o & -> & _). eauto.
+    - destruct r as [[i' o]|k]; [eauto|]. exfalso. eapply sf_free_nopanic; eauto. }
+  pose proof (sf_frame_ok _ _ _ _ _ _ Hok Hsf) as Hfo.
+  pose proof H as H'. apply fin_shape in H' as (_ & _ & _ & _ & Hp & _).
+  split; [|exact Hp].
+  eapply fin_nopost in H as (th' & E & Hth'); eauto.
+  - eapply calls_nopost_set; eauto.
+  - destruct o; [apply Hfo|exact I|congruence].
+Qed.
+
+Lemma init_nopost n progs : Forall (Forall nopost) progs -> calls_nopost (init_config n progs).
+Proof.
+  intros H t th. cbn. rewrite nth_error_map. destruct (nth_error progs t) as [p|] eqn:E; [|discriminate].
+  cbn. intros [= <-]. apply next_call_nopost. rewrite Forall_forall in H. apply H. eapply nth_error_In, E.
+Qed.
+
+Lemma run_nopost c sched : Inv c -> calls_nopost c -> c_panicked c = false ->
+  c_panicked (run_schedule c sched) = false.
+Proof.
+  revert c. induction sched as [|[t ch] sched IH]; intros c HI HN Hp; cbn; [exact Hp|].
+  destruct (step c t ch) as [c'|] eqn:E; cbn; [|apply IH; assumption].
+  destruct (step_nopost c t ch c' HI HN E). apply IH; eauto using Inv_step.
+Qed.
+
+Theorem no_panic n progs sched :
+  Forall (Forall nopost) progs -> c_panicked (run_schedule (init_config n progs) sched) = false.
+Proof. intros H. apply run_nopost; [apply Inv_init|apply init_nopost, H|reflexivity]. Qed.
